@@ -16,7 +16,7 @@ RULE = ("seeded store histories biased to private objects through every storing 
         "The simulator scans the written file after EVERY simulated write(2) for every registered private byte-string value (unique, >= 12 bytes) and for the per-token master key and mask (known through "
         "the RNG seam); at disk dumps the independent decoder must open the master key with the SO PIN and with the user PIN (same key), decrypt every private value to what the API returned, and all IVs on disk "
         "must be pairwise distinct; every file/directory creation is checked against the configured umask. Distinct+non-trivial: (storing path, object kind, umask, PIN-history class).")
-PROBES = ["writes_scanned", "private_values_registered", "masterkey_registered", "disk_decoded", "ivs_compared", "modes_checked", "pin_changed_then_decoded", "reinit_then_decoded", "upgrade_copy", "private_value_decrypted", "umask_nondefault"]
+PROBES = ["db_backend_runs", "writes_scanned", "private_values_registered", "masterkey_registered", "disk_decoded", "ivs_compared", "modes_checked", "pin_changed_then_decoded", "reinit_then_decoded", "upgrade_copy", "private_value_decrypted", "umask_nondefault"]
 DEATH_IS_VIOLATION = ()
 
 W = {"open": 3, "login": 4, "logout": 1, "create": 26, "gen": 8, "genpair": 3, "unwrap": 5, "derive": 5, "copy": 6, "upgrade": 6, "setattr": 14, "destroy": 5, "restart": 2, "disk": 7, "setpin": 5, "reinit": 1.5}
@@ -139,6 +139,7 @@ def gen(seed, tier, index):
     # softhsm2.conf(5): the value is octal - with or without a leading zero
     g.knobs["conf"]["objectstore.umask"] = ["0077", "0027", "0022", "0000", "0077", "0007", "27", "77", "7", "17", "022", "0"][index % 12]
     if index % 11 == 10: g.knobs["conf"].pop("objectstore.umask")   # default: owner-only
+    if index % 5 == 3: g.knobs["conf"]["objectstore.backend"] = "db"   # "for both storage backends": SQLite on the simulated disk - database and journal are scanned after every write like any other file
     g.begin()
     for t in g.toks():
         g.s_open(tok=t, rw=True); g.s_login(user=K.CKU_USER, tok=t)
@@ -240,6 +241,9 @@ def check(plan, r):
                         if kind == "x" and len(val) >= 32:
                             st("ivs_compared")
                             note_iv(ivs, val[:16], (fname, t_, val[16:32]), viols, k)
+    backend = plan["knobs"].get("conf", {}).get("objectstore.backend", "file")
+    if backend == "db": st("db_backend_runs")
+    for v in viols: v["backend"] = backend
     r.aux["c06"] = (cov, stats)
     return viols[:6]
 
@@ -274,4 +278,4 @@ TECHNIQUE = "deterministic simulation: invariant monitor over the simulated disk
 CLAIM = ("Seeded exploration with an always-on disk invariant: because the simulator owns the disk, the content of every file is scanned after each individual write (so also in every state a crash would freeze) "
          "for the plaintext of every private byte-string value and for the master key; an independent decoder must unwrap the master key from the SO blob and the user blob with the model's PINs, decrypt all private "
          "values to what the API returned, and find no IV twice; every create/mkdir is checked against objectstore.umask. PIN changes, re-initialisation and public-to-private copies are part of the histories. Evidence, not proof.")
-NOTE = "Trusted: format specification (tools/decoder.py), RNG seam (the master key is recognised as a 32-byte draw during C_InitToken), uniqueness of harness values. Values nested in wrap/unwrap templates are excluded as the property says. File back end only."
+NOTE = "Trusted: format specification (tools/decoder.py), RNG seam (the master key is recognised as a 32-byte draw during C_InitToken), uniqueness of harness values. Values nested in wrap/unwrap templates are excluded as the property says. Both object stores: every fifth plan runs on the SQLite store over the simulated disk (database and rollback journal are scanned after every write like any other file; modes of files SQLite creates itself come from the VFS stub, which copies the database's mode as the unix VFS does)."
